@@ -17,7 +17,8 @@ from ..gen import Gen
 CFG = "SPECIFICATION Spec\nINVARIANT Judge\n"
 
 # finite state spaces: Boolean and object fluents, bounded ints only
-FINITE = dict(real=False, incdec=True, bounded=True, undefined=False, invariants=True, max_fluents=4, max_objects=2)
+# (the meta-engines' supported kinds exclude state invariants and forall effects)
+FINITE = dict(real=False, incdec=True, bounded=True, undefined=False, invariants=False, forall_eff=False, max_fluents=4, max_objects=2)
 
 
 def finite_problem(P):
@@ -31,14 +32,58 @@ def finite_problem(P):
     return True
 
 
+def _retarget_goals(P, problem, rng):
+    from unified_planning.engines.sequential_simulator import UPSequentialSimulator
+    from ..gen import ground_actions
+    from ..upj import E
+
+    try:
+        sim = UPSequentialSimulator(problem, error_on_failed_checks=False)
+        st = sim.get_initial_state()
+        gas = ground_actions(P)
+        for _ in range(rng.randint(1, 4)):
+            rng.shuffle(gas)
+            for g in gas[:8]:
+                a = problem.action(g["a"])
+                ns = sim.apply(st, a, simobs._params(problem, a, g["args"]))
+                if ns is not None:
+                    st = ns
+                    break
+        keys = upj.keys_of(P)
+        vec = upj.state_vector(st, problem, keys)
+        lits = []
+        for (name, args), v in zip(keys, vec):
+            fe = E("fluent", [E("obj", name=a) for a in args], name=name)
+            if v["k"] == "b":
+                lits.append(fe if v["b"] else E("not", [fe]))
+            elif v["k"] == "n":
+                lits.append(E("eq", [fe, E("const", v=v)]))
+        if not lits:
+            return None
+        rng.shuffle(lits)
+        P2 = dict(P)
+        P2["goals"] = lits[: rng.randint(1, 2)]
+        return P2
+    except Exception:
+        return None
+
+
 def worker(job):
     pid, P, mode, seed = job
     import unified_planning as up
 
     rec = {"id": pid, "P": P, "keys": upj.keys_of(P), "mode": mode, "status": "", "has_plan": False, "plan": [], "skip": "", "complete": True}
     try:
-        with time_limit(20):
+        with time_limit(40):
             problem = upj.build(P)
+            if seed % 3 != 0:
+                # generator heuristic (not an oracle): aim the hard goals at a state the implementation's
+                # simulator reaches by a short random walk, so that most problems are solvable
+                P2 = _retarget_goals(P, problem, random.Random(seed))
+                if P2 is not None:
+                    P = P2
+                    rec["P"] = P
+                    problem = upj.build(P)
         env = problem.environment
         if "bfs" not in env.factory.engines:
             env.factory.add_engine("bfs", "harness.bfsplanner", "BfsPlanner")
@@ -56,7 +101,10 @@ def worker(job):
         rec["skip"] = "timeout"
         return rec
     except Exception as ex:
+        import traceback
+
         rec["skip"] = "build:" + type(ex).__name__
+        rec["detail"] = traceback.format_exc()[-600:]
         return rec
     try:
         def _solve():
@@ -107,6 +155,7 @@ def run(ctx):
         if r["skip"]:
             skipped[r["skip"]] = skipped.get(r["skip"], 0) + 1
     batch = [r for r in recs if not r["skip"]]
+    ctx.cov["skip_details"] = sorted({r.get("detail", "")[-200:] for r in recs if r["skip"].startswith("build:Attr")})[:3]
     if not batch:
         raise MachineryError("nothing solved: %r" % skipped)
     for r in batch:
